@@ -99,11 +99,9 @@ pub fn replay(r: &Value) -> bool {
     let inp = r["input"].as_str().unwrap_or("");
     if inp.starts_with("len:") {
         println!("input too large to be stored; re-run the leg with the recorded seed");
+        crate::util::not_replayable();
         return false;
     }
     check(&unhex(inp), &mut rep);
-    for v in &rep.violations {
-        println!("{}: {}", v.signature, v.detail);
-    }
-    rep.violations.is_empty()
+    crate::util::print_replay(&rep)
 }
